@@ -221,11 +221,12 @@ GRAPHS = [
 ]
 
 
-def build_system(w: World, graph, zero_flows=()):
+def build_system(w: World, graph, zero_flows=(), proc_ids=None):
     prog, it = w.prog, w.it
     procs_n, flows_n, stocks_n = graph
     Process = prog.cls("Process")
-    procs = {n: it.construct(Process, [], dict(name=n, id=i)) for i, n in enumerate(procs_n)}
+    ids = proc_ids or {n: i for i, n in enumerate(procs_n)}       # a hand-built system may list its processes in any order of ids
+    procs = {n: it.construct(Process, [], dict(name=n, id=ids[n])) for n in procs_n}
     Flow = prog.cls("Flow")
     flows, leafs = {}, {}
     seen = {}
